@@ -899,7 +899,7 @@ func ReplayAttribution(input json.RawMessage) (bool, string) {
 		return false, err.Error()
 	}
 	why := checkAttribution(in)
-	return why != "" && why != "HUNG", fmt.Sprintf("script=%v cfg=%s: %s", in.Script, CfgName(in.Cfg), why)
+	return why != "", fmt.Sprintf("script=%v cfg=%s: %s", in.Script, CfgName(in.Cfg), why)
 }
 
 func ReplayInjection(input json.RawMessage) (bool, string) {
@@ -908,7 +908,7 @@ func ReplayInjection(input json.RawMessage) (bool, string) {
 		return false, err.Error()
 	}
 	why := checkInjection(in)
-	return why != "" && why != "HUNG", fmt.Sprintf("%s at packet %d: %s", in.Note, in.At, why)
+	return why != "", fmt.Sprintf("%s at packet %d: %s", in.Note, in.At, why)
 }
 
 // ReplayMarshal re-executes a history and serialises every delivery.
